@@ -1303,6 +1303,102 @@ def lb1_inline_lambdas(fn):
     return changed
 
 
+# ------------------------------------------------------------------------------------------ LC1
+def _pure_len_test(e):
+    return not any(isinstance(x, (ast.Await, ast.Yield, ast.NamedExpr, ast.Lambda)) or
+                   isinstance(x, ast.Call) and not (isinstance(x.func, ast.Name) and x.func.id == 'len') for x in ast.walk(e))
+
+
+def _stores(node, name):
+    return any(isinstance(x, ast.Name) and x.id == name and isinstance(x.ctx, (ast.Store, ast.Del)) for x in ast.walk(node))
+
+
+def _lc_flow(stmts, name, c, st, conts):
+    """Abstract value of `name` ('c' = the constant c, 'T' = anything) after stmts, starting from st; None if no path falls through.
+    States at `continue` statements are appended to conts."""
+    for s in stmts:
+        if st is None:
+            return None
+        if isinstance(s, ast.Assign) and len(s.targets) == 1 and isinstance(s.targets[0], ast.Name) and s.targets[0].id == name:
+            st = 'c' if isinstance(s.value, ast.Constant) and type(s.value.value) is int and s.value.value == c else 'T'
+        elif isinstance(s, (ast.Return, ast.Raise, ast.Break)):
+            return None
+        elif isinstance(s, ast.Continue):
+            conts.append(st)
+            return None
+        elif isinstance(s, ast.If):
+            a = _lc_flow(s.body, name, c, st, conts)
+            b = _lc_flow(s.orelse, name, c, st, conts)
+            st = a if b is None else b if a is None else ('c' if a == b == 'c' else 'T')
+        elif _stores(s, name) or isinstance(s, (ast.While, ast.For, ast.AsyncFor, ast.Try, ast.With, ast.AsyncWith, ast.Match)) and \
+                (any(isinstance(x, (ast.Continue, ast.Break)) for x in ast.walk(s)) or _stores(s, name)):
+            st = 'T'
+    return st
+
+
+def lc1_loop_constant(block):
+    """LC1: a while loop whose test reads a local that holds the same integer constant whenever the test is evaluated with a chance of
+    being true -- `L = c` before the loop, and `L = c` last on every path that comes round -- reads that constant:
+        L = c                                   L = c
+        while G(L):                             while G(c):
+            ..; L += e                              ..; L = c + e
+            if G(L): ..; L = c          ==>         if G(L): ..; L = c
+                                                    else: break
+    (the test repeated as the last statement needs no second evaluation when it failed: nothing changes in between)."""
+    for k, w in enumerate(block):
+        if not (isinstance(w, ast.While) and not w.orelse and w.body and _pure_len_test(w.test)):
+            continue
+        names = {x.id for x in ast.walk(w.test) if isinstance(x, ast.Name)}
+        for L in sorted(names):
+            if not _stores(w, L):
+                continue
+            c = None
+            for s in reversed(block[:k]):
+                if isinstance(s, ast.Assign) and len(s.targets) == 1 and isinstance(s.targets[0], ast.Name) and s.targets[0].id == L:
+                    if isinstance(s.value, ast.Constant) and type(s.value.value) is int:
+                        c = s.value.value
+                    break
+                if _stores(s, L):
+                    break
+            if c is None:
+                continue
+            last = w.body[-1]
+            implied = isinstance(last, ast.If) and not last.orelse and ast.unparse(last.test) == ast.unparse(w.test)
+            body = w.body
+            if implied:
+                trial = copy.copy(last)
+                trial.orelse = [ast.Break()]
+                body = w.body[:-1] + [trial]
+            conts = []
+            end = _lc_flow(body, L, c, 'c', conts)
+            if any(x != 'c' for x in conts + ([end] if end is not None else [])):
+                continue
+            # L == c whenever the test is evaluated
+            if implied:
+                # written as the early exit the rules know: if not G: break; <body of the if>
+                ex = ast.copy_location(ast.If(test=_Orient().visit(negate(copy.deepcopy(last.test))), body=[ast.copy_location(ast.Break(), last)], orelse=[]), last)
+                ast.fix_missing_locations(ex)
+                w.body[-1:] = [ex] + last.body
+
+            class Sub(ast.NodeTransformer):
+                def visit_Name(self, n):
+                    return ast.copy_location(ast.Constant(value=c), n) if n.id == L and isinstance(n.ctx, ast.Load) else n
+            w.test = Sub().visit(w.test)
+            # the straight-line head of the body, up to the first statement that stores L, reads the constant as well
+            for i, s in enumerate(w.body):
+                if isinstance(s, ast.AugAssign) and isinstance(s.target, ast.Name) and s.target.id == L:
+                    w.body[i] = ast.copy_location(ast.Assign(targets=[ast.Name(id=L, ctx=ast.Store())],
+                                                             value=ast.BinOp(left=ast.Constant(value=c), op=s.op, right=Sub().visit(s.value)), lineno=s.lineno), s)
+                    ast.fix_missing_locations(w.body[i])
+                    break
+                if _stores(s, L) or isinstance(s, (ast.While, ast.For, ast.AsyncFor, ast.Try, ast.If, ast.With, ast.AsyncWith, ast.Match)) and _stores(s, L):
+                    if isinstance(s, ast.Assign) and len(s.targets) == 1 and isinstance(s.targets[0], ast.Name):
+                        s.value = Sub().visit(s.value)
+                    break
+                w.body[i] = Sub().visit(s)
+    return block
+
+
 # ------------------------------------------------------------------------------------------ TS1
 def ts1_split_tuple(block):
     """TS1: `a, b = X, Y` is `a = X; b = Y` when no later value reads an earlier target (names and attribute chains only; element
@@ -1338,6 +1434,36 @@ def ts1_split_tuple(block):
                 continue
         out.append(s)
     return out
+
+
+# ------------------------------------------------------------------------------------------ GX1
+def gx1_generator_loop(fn):
+    """GX1: `for X in (E for v in IT [if C]): B` is `for v in IT: [if not C: continue]; X = E; B` -- the generator computes each
+    element exactly when the loop asks for it -- provided v is a plain name that the function does not use anywhere else."""
+    names = {}
+    for x in ast.walk(fn):
+        if isinstance(x, ast.Name):
+            names[x.id] = names.get(x.id, 0) + 1
+        elif isinstance(x, ast.arg):
+            names[x.arg] = names.get(x.arg, 0) + 1
+    for lp in [n for n in ast.walk(fn) if isinstance(n, ast.For)]:
+        g = lp.iter
+        if not (isinstance(g, ast.GeneratorExp) and len(g.generators) == 1 and not g.generators[0].is_async and isinstance(g.generators[0].target, ast.Name)
+                and isinstance(lp.target, ast.Name)):
+            continue
+        c = g.generators[0]
+        v = c.target.id
+        inside = sum(1 for x in ast.walk(g) if isinstance(x, ast.Name) and x.id == v)
+        if names.get(v, 0) != inside or v == lp.target.id or any(isinstance(x, (ast.Await, ast.Yield, ast.NamedExpr)) for x in ast.walk(g)):
+            continue
+        head = [ast.If(test=negate(t), body=[ast.Continue()], orelse=[]) for t in c.ifs]
+        head.append(ast.Assign(targets=[ast.Name(id=lp.target.id, ctx=ast.Store())], value=g.elt, lineno=lp.lineno))
+        for h in head:
+            ast.copy_location(h, lp)
+            ast.fix_missing_locations(h)
+        lp.target = ast.copy_location(ast.Name(id=v, ctx=ast.Store()), lp.target)
+        lp.iter = c.iter
+        lp.body = head + lp.body
 
 
 # ------------------------------------------------------------------------------------------ RD1
@@ -1639,6 +1765,7 @@ def canon_function(fn_node, level=None, protocol=False, vocab=None, refsigs=None
     _walk_blocks(fn, p6_unpack1)
     _walk_blocks(fn, rd1_reduce)
     _walk_blocks(fn, ts1_split_tuple)
+    gx1_generator_loop(fn)
     mc = _MapComp()
     fn.body = [mc.visit(s) for s in fn.body]
     lb1_inline_lambdas(fn)
@@ -1648,6 +1775,7 @@ def canon_function(fn_node, level=None, protocol=False, vocab=None, refsigs=None
     fn.body = [o.visit(s) for s in fn.body]
     t = _Tests()
     fn.body = [t.visit(s) for s in fn.body]
+    _walk_blocks(fn, lc1_loop_constant)
     if protocol:
         _walk_blocks(fn, p7_aug)
         fn = p1_inline_aliases(fn)
